@@ -825,6 +825,7 @@ func checkC03(c *core.Ctx) {
 	collect(c03FunResultDriver())
 	collect(c03BindersDriver())
 	collect(c03TypeParamOrderDriver())
+	collect(c03RedeclDriver())
 	c.Count(0, total.States, total.Transitions, 0)
 	const per = 150
 	var wg sync.WaitGroup
